@@ -99,12 +99,12 @@ def driver_tasks(repo):
     """[(method, task key)] of the coroutines the manager starts on entering its context"""
     aenter = repo.method(MAN, "__aenter__")
     drivers = []
-    for n in walk_no_nested(aenter.node):
-        if isinstance(n, ast.Call) and call_name(n) == "add_task" and n.args and isinstance(n.args[0], ast.Call):
-            fn = call_name(n.args[0])
-            m = repo.method(MAN, fn, required=False)
+    from ..facts import started_tasks
+    for a, _nm, key, _n in started_tasks(repo, aenter):
+        if isinstance(a, ast.Call):
+            m = repo.method(MAN, call_name(a), required=False)
             if m is not None:
-                drivers.append((m, repo.try_fold(n.args[2], aenter.mod, aenter.cls) if len(n.args) > 2 else None))
+                drivers.append((m, key))
     return drivers
 
 
@@ -236,7 +236,8 @@ def check(ctx):
     ok = len(nores) == 1 and nores[0].req_states == {"CONNECTED"} and str(nores[0].value).startswith("ERROR_")
     ctx.ob("R3", "NO_RESPONSE::leaves-CONNECTED", ok, "the RUNNING_PING_NO_RESPONSE row does not move CONNECTED to an error state", he.loc)
     con = repo.method("GeckoAsyncSpa", "_connect")
-    started = any(isinstance(n, ast.Call) and call_name(n) == "add_task" and n.args and isinstance(n.args[0], ast.Call) and call_name(n.args[0]) == "_ping_loop" for n in ast.walk(con.node))
+    from ..facts import started_tasks
+    started = any(isinstance(a, ast.Call) and call_name(a) == "_ping_loop" for a, _nm, _k, _n in started_tasks(repo, con))
     ctx.ob("R3", "_connect::starts-ping-loop", started, "GeckoAsyncSpa._connect does not start the ping loop", con.loc)
     ctx.rule("R4", "what a (re)connect downloads is the spa's block: the status-block transfer behind connect and refresh installs exactly the requested bytes or nothing, also when an attempt is abandoned part-way and retried (C01's async assembler model borrowed) - a necessary condition for 'values mirror the spa'")
     from .c01 import async_assembly_model
